@@ -267,6 +267,12 @@ Definition log_ticks := log_ticks_gen log_count.
 (* float64 range: a positive value neither underflows to 0 nor overflows to +Inf *)
 Definition f64_pos_ok (q : Q) : bool := Qleb (qpow 2 (-1074)) q && Qltb q (qpow 2 1024).
 
+(* an end may move to the power b^(n 2^level) only if that is a positive finite float64 and -
+   at a level whose effective base b^(2^level) is itself beyond float64 - only for n = 0
+   (log.go Nice: `overflow && firstN != 0`): there 1 is the only representable power *)
+Definition log_end_ok (b k n : Z) (q : Q) : bool :=
+  (Qltb (qpow b k) (qpow 2 1024) || (n =? 0)%Z) && f64_pos_ok q.
+
 (* log.go:209-232, repaired (D10): each end moves only outwards and only to a positive finite
    float64 value *)
 Definition log_nice_gen (C : logexp -> bool -> Z -> Z) (b : Z) (mn mx : Q) (o : tickopts) : Q * Q :=
@@ -278,8 +284,8 @@ Definition log_nice_gen (C : logexp -> bool -> Z -> Z) (b : Z) (mn mx : Q) (o : 
       let '(f, la) := log_first_last e true l in
       let k := (2 ^ l)%Z in
       let nmn := qpow b (f * k) in let nmx := qpow b (la * k) in
-      let nemin := if f64_pos_ok nmn && Qleb nmn emin then nmn else emin in
-      let nemax := if f64_pos_ok nmx && Qleb emax nmx then nmx else emax in
+      let nemin := if log_end_ok b k f nmn && Qleb nmn emin then nmn else emin in
+      let nemax := if log_end_ok b k la nmx && Qleb emax nmx then nmx else emax in
       if neg then (- nemax, - nemin) else (nemin, nemax)
   | _ => (mn, mx)
   end.
